@@ -29,6 +29,15 @@ CHECKS = {
               "streams are validated field by field, bit position by bit position, by Trace_Deflate, which also "
               "states C03 against zlib's verdict logged in the trace.",
               "DESIGN.md 4 (C03)"),
+    "C04": _c("History.tla defines the history space (reference build writes, upgrade, current build reads) and the "
+              "version gate; TLC shows NoSilentLoss for every history iff equal versions imply equal formats, finds the "
+              "silent change in the negative configuration and shows that a same-build round trip cannot see it. The "
+              "frozen reference build (/verif/refbuild) and the working tree are linked into one process: objects the "
+              "reference writes (correction data of compressor-made, generated and boundary-sweep streams; containers) "
+              "are read by the current build and compared byte for byte, and the operation sequence the reference "
+              "encoded is compared with the one the current build decodes; every such history is validated by "
+              "Trace_History.",
+              "DESIGN.md 4 (C04)"),
     "C05": _c("Generated valid-but-unusual streams, compressor outputs with 8 mutations each, and every byte string up "
               "to 2 (thorough: 3) bytes are analysed with both verify flags under a watchdog; a panic or a hang is a "
               "trace event the specification has no transition for.",
@@ -42,6 +51,12 @@ CHECKS = {
               "blocks, 284+31) and every compressor output goes through the hook parse_and_rewrite (parser + block "
               "writer, no predictor); the oracle is the input prefix.",
               "DESIGN.md 4 (C07)"),
+    "C08": _c("Params.tla gives the header layout, widths and the estimator's range; MC_Params checks that every "
+              "boundary-valued vector fits and reads back (and that the pinned range with limits up to 257 does not); "
+              "every such vector is forced onto compressor-made and generated streams through roundtrip_with_params "
+              "(Err, or exact reconstruction and the vector read back); on driver streams the header operations, both "
+              "sides' operations and predictor states are validated by Trace_Stream.",
+              "DESIGN.md 4 (C08)"),
     "C10": _c("Codec.tla specifies the codec at bin level; TLC checks losslessness and reader/writer context agreement "
               "for every operation sequence up to a bound; every such sequence is replayed into the real codec with the "
               "spec's bins as the expected coder input; recorded round trips of long random sequences and of real "
